@@ -68,6 +68,15 @@ func sameLoc(a, b ssa.Value) bool {
 // validatorCallGuarding finds the (bool, error) module call whose true edge
 // guards the instruction.
 func (p *Prog) validatorCallGuarding(in ssa.Instruction) *ssa.Call {
+	v, _ := p.validatorGuard(in, 2)
+	return v
+}
+
+// validatorGuard: the (bool, error) validator call on whose true edge the
+// instruction lies — in its own function, or, when that function is an
+// unexported helper, at every one of its call sites (the first site is
+// returned so that arguments can be mapped onto the helper's parameters).
+func (p *Prog) validatorGuard(in ssa.Instruction, depth int) (*ssa.Call, ssa.CallInstruction) {
 	fn := in.Parent()
 	var found *ssa.Call
 	for _, ci := range callsIn(fn) {
@@ -92,7 +101,28 @@ func (p *Prog) validatorCallGuarding(in ssa.Instruction) *ssa.Call {
 			found = cl
 		}
 	}
-	return found
+	if found != nil || depth == 0 {
+		return found, nil
+	}
+	if fn.Object() == nil || fn.Object().Exported() {
+		return nil, nil
+	}
+	sites := p.callersOf(fn)
+	if len(sites) == 0 {
+		return nil, nil
+	}
+	var first *ssa.Call
+	var firstSite ssa.CallInstruction
+	for _, s := range sites {
+		v, _ := p.validatorGuard(s, depth-1)
+		if v == nil {
+			return nil, nil
+		}
+		if first == nil {
+			first, firstSite = v, s
+		}
+	}
+	return first, firstSite
 }
 
 // linkValidator: the function guarding os.Symlink in Unpack (by role).
@@ -133,13 +163,23 @@ func ruleC04Guard(c *Checker) {
 			c.fail(R, fn, "link creation outside Unpack", pos, "a link is created in a function that is not a private helper of Unpack; the validator guard cannot be matched to it")
 			continue
 		}
-		v := p.validatorCallGuarding(s.Call)
+		v, site := p.validatorGuard(s.Call, 2)
 		if v == nil {
 			c.fail(R, fn, shortCallee(s.Name)+" guard", pos, "os.Symlink is not on the accepted edge of a (bool, error) link validator")
 			continue
 		}
 		c.pass(R, fn, shortCallee(s.Name)+" guard", pos, "on the true edge of "+p.FuncName(v.Common().StaticCallee()))
 		target := s.Call.Common().Args[0]
+		if site != nil {
+			// the link is made in a helper: its parameter stands for the argument at the guarded call site
+			if prm, ok := canon(target).(*ssa.Parameter); ok {
+				for i, pp := range s.Fn.Params {
+					if pp == prm && i < len(site.Common().Args) {
+						target = site.Common().Args[i]
+					}
+				}
+			}
+		}
 		// validator receives the same target and dst
 		sameTarget, hasDst := false, false
 		for _, a := range v.Call.Args {
@@ -160,6 +200,15 @@ func ruleC04Guard(c *Checker) {
 		// from the raw header name, which the constructor may have rewritten (leading slash).
 		if len(s.Call.Common().Args) >= 2 {
 			newname := s.Call.Common().Args[1]
+			if site != nil {
+				if prm, ok := canon(newname).(*ssa.Parameter); ok {
+					for i, pp := range s.Fn.Params {
+						if pp == prm && i < len(site.Common().Args) {
+							newname = site.Common().Args[i]
+						}
+					}
+				}
+			}
 			var posArg ssa.Value
 			for _, a := range v.Call.Args {
 				if !isStringType(a.Type()) || sameLoc(a, target) {
@@ -194,7 +243,7 @@ func ruleC04Guard(c *Checker) {
 		c.check(hasDst, R, fn, "validator root = dst", pos, "the validator's root is Unpack's destination parameter", "the validator is not rooted at the destination directory")
 		// rejected edge returns the validator's error
 		b0 := extractOf(v, 0)
-		_, fE := boolEdges(s.Fn, b0)
+		_, fE := boolEdges(v.Parent(), b0)
 		okRej := len(fE) > 0
 		for _, e := range fE {
 			if okr, _ := returnsNonNilErrorFrom(e.To()); !okr {
